@@ -2,6 +2,11 @@
 (* Model-checking / behaviour-generation wrapper of Oid4vci.tla *)
 EXTENDS Oid4vci, Json
 
+SubjW == <<"W">>
+SubjWA == <<"W", "A">>
+SubjWW == <<"W", "W">>
+SubjAW == <<"A", "W">>
+
 WDone == wruns = MaxWRuns \/ ~(\E o \in offers : o.to = "W" /\ (Replay \/ o \notin handled))
 AllDone == Quiet /\ nflows = MaxOffers /\ asteps = MaxAtt /\ WDone
 \* behaviour generation (Hist = TRUE configs): one witness per distinct terminal state (hist is not part of the VIEW)
